@@ -252,7 +252,8 @@ func (b *Bus) Publish(ctx context.Context, e *wire.Envelope) error {
 			deliver(e3, " (duplicate)")
 		}()
 	}
-	if b.Async {
+	if b.Async || b.S.UnderStdMutex() {
+		// (a sender that holds a standard mutex is never parked: rule R3)
 		go func() {
 			time.Sleep(d)
 			deliver(e2, "")
